@@ -503,3 +503,11 @@ End Sigmoid.
 Lemma roll_net_backend_independent b a k g n1 n2 n3 x z :
   roll_net_deriv (roll_of b) a k g n1 n2 n3 x z = roll_net_deriv roll a k g n1 n2 n3 x z.
 Proof. destruct b; try reflexivity. unfold roll_net_deriv, roll_of. now rewrite !cshift_neg_roll. Qed.
+
+(* ================================================================================================ named constants *)
+(* both proofs go through for either value of the switch fixed_fortran_pi *)
+Lemma backend_pi_partial b : fortran_pi_free b true = true -> backend_pi b = pi_f64.
+Proof. destruct b; vm_compute; intros H; try reflexivity; discriminate H. Qed.
+
+Lemma backend_pi_fortran_before_fix : fixed_fortran_pi = false -> backend_pi BFortran <> pi_f64.
+Proof. vm_compute. intros H E. first [discriminate H | discriminate E]. Qed.
